@@ -268,8 +268,15 @@ def one_rules(case):
     tabs = simcases.Tables(case, labels)
     outs2 = [[v for v in adj[u] if tabs.sir_delay(labels[u], labels[v]) <= tabs.sir_duration(labels[u])] for u in range(n)]
     tabs.calls = []
+    xa = ()
+    if case.get("xargs"):
+        xa = (("T", 1), ("R", 2, None))
+        tabs.expect["trans"], tabs.expect["rec"] = xa
     r = run_under(SimRandom(SEEDED, seed=1), EoN.estimate_nonMarkov_SIR_prob_size_with_timing, G,
-                  tabs.sir_trans_time, tabs.sir_rec_time)
+                  tabs.sir_trans_time, tabs.sir_rec_time, *xa)
+    if tabs.bad_args:
+        from eonsim import sweeps as _sw
+        return _sw.args_violation(dict(case, sim="estimate_nonMarkov_SIR_prob_size_with_timing"), tabs)
     if r.status == "done":
         # duration(u) is ONE value per node: a (possibly random) user rule must be asked exactly once
         # per node, and the delay rule once per ordered neighbour pair
